@@ -143,6 +143,23 @@ def check_unary_clauses(alg, ref, cfg, keys, res, shard, unit=False):
         p, raised = None, 'ZeroDivisionError'
     except Exception as e:
         p, raised = None, type(e).__name__
+    # the other entry points of the same operation: the algebra-level call and a registered expression
+    def _pol(a):
+        return a.polarity()
+    for ename, th in (('alg.polarity(x)', lambda: alg.polarity(x)), ('registered x.polarity()', lambda: alg.register(_pol)(x))):
+        if shard.get('values') == 'exact' or (ename.startswith('registered') and not unit):
+            continue
+        res.evals += 1
+        try:
+            p2, r2 = mvdict(th())[0], None
+        except ZeroDivisionError:
+            p2, r2 = None, 'ZeroDivisionError'
+        except Exception as e:
+            p2, r2 = None, type(e).__name__
+        if degenerate_cfg and r2 != 'ZeroDivisionError':
+            V('polarity:degenerate-must-raise:' + ename.split('(')[0].split()[0], f'{ename} in a degenerate metric must raise ZeroDivisionError', 'ZeroDivisionError', r2 or show(p2), f'print({ename})')
+        elif not degenerate_cfg and not raised and (r2 or eq_elem(p2, p)):
+            V('polarity:entry-points-differ:' + ename.split('(')[0].split()[0], f'{ename} differs from x.polarity()', show(p), r2 or show(p2), f'print({ename}, x.polarity())')
     if degenerate_cfg:
         if raised != 'ZeroDivisionError':
             V('polarity:degenerate-must-raise', 'polarity in a degenerate metric must raise ZeroDivisionError', 'ZeroDivisionError', raised or show(p), 'print(x.polarity())')
